@@ -22,7 +22,7 @@ READY = True
 DRIVER = "dm_hlg"
 LEAN_MODULES = ["DaskModel.Props.C10"]
 TABLES = ["FuseRules"]
-CASE_TIMEOUT_S = 20
+CASE_TIMEOUT_S = 60   # the first case of a run also pays the import of dask.array (slow on a loaded machine)
 LEVEL_TEXT = ("Lean 4 theorems over a transliteration of dask/blockwise.py's coordinate logic, HighLevelGraph.cull and "
               "_fuse_annotations: `coordmap_spec` (the position arithmetic of _get_coord_mapping resolves, for every "
               "enumeration of the dummy-index set, to: output coordinate / 0 when numblocks == 1 / the whole range of a "
@@ -392,7 +392,10 @@ def _build_hlg(spec):
     for L in spec["layers"]:
         nm = L["name"]
         deps[nm] = {owner[d] for _, ds in L["tasks"] for d in ds if owner[d] != nm}
-        if L["kind"] == "mat":
+        if L["kind"] == "mat" and L.get("legacy"):
+            # legacy tuple tasks: Layer.cull takes its `has_legacy_tasks` branch (get_dependencies via keys_in_tasks)
+            layers[nm] = MaterializedLayer({keyobj[k]: (_mk_node, k) + tuple(keyobj[d] for d in ds) for k, ds in L["tasks"]})
+        elif L["kind"] == "mat":
             layers[nm] = MaterializedLayer({keyobj[k]: Task(keyobj[k], _mk_node, k, *[TaskRef(keyobj[d]) for d in ds])
                                             for k, ds in L["tasks"]})
         else:
@@ -447,8 +450,9 @@ def case_hlgcull(ctx, inp):
     if missing:
         ctx.fail("culled graph lacks a requested key", observed=list(map(str, missing)))
         return
+    depmap = {keyobj[k]: [keyobj[x] for x in ds] for L in spec["layers"] for k, ds in L["tasks"]}
     for k, t in cd.items():
-        for d in t.dependencies:
+        for d in depmap.get(k, ()):
             if d in full and d not in cd:
                 ctx.fail("culled graph not closed under dependencies", observed=[str(k), str(d)])
                 return
@@ -460,6 +464,8 @@ def case_hlgcull(ctx, inp):
         ctx.branch("culled-something")
     if any(L["kind"] == "bw" for L in spec["layers"]):
         ctx.branch("blockwise-layer")
+    if any(L.get("legacy") for L in spec["layers"]):
+        ctx.branch("legacy-task-layer")
     if any(len(l) == 0 for l in real_layers) or len(real_layers) < len(spec["layers"]):
         ctx.branch("layer-dropped")
     if any(any(owner_same(L, d) for _, ds in L["tasks"] for d in ds) for L in spec["layers"]):
@@ -508,7 +514,7 @@ def gen_hlg(rng):
                 pool = allkeys + ks[:j]  # earlier layers or earlier tasks of this layer
                 ds = rng.sample(pool, min(len(pool), rng.choice([0, 1, 1, 2, 3]))) if pool else []
                 tasks.append([k, ds])
-            layers.append({"name": "L%d" % i, "kind": "mat", "tasks": tasks})
+            layers.append({"name": "L%d" % i, "kind": "mat", "tasks": tasks, "legacy": rng.random() < 0.3})
         allkeys += [k for k, _ in layers[-1]["tasks"]]
     nk = rng.randint(0, min(4, len(allkeys)))
     t = rng.random()
@@ -521,6 +527,7 @@ def gen_hlg(rng):
 # ------------------------------------------------------------------------------------------------
 
 STACK_W = {"un": 3, "bin": 5, "T": 3, "bwsum": 2, "bwlist": 2, "mb": 2, "mb_new": 3, "mb_drop": 2, "dot": 2, "bw2": 4, "bwc": 4,
+           "bwself": 5,
            "where": 1, "sum": 1, "astype": 1, "expand": 1, "bcast": 1}
 
 
@@ -622,6 +629,20 @@ def case_stack(ctx, inp):
         except Exception as e:
             ctx.fail("compute() raised on a program NumPy evaluates: " + type(e).__name__ + ": " + str(e)[:160])
             r = x
+        # single blocks through the public pipeline (optimize_blockwise + fuse_roots + cull + low-level fusion)
+        if d.ndim:
+            starts = [U.cumsum0(c) for c in d.chunks]
+            allidx = list(itertools.product(*[range(n) for n in d.numblocks]))
+            for bidx in (allidx if len(allidx) <= 3 else ctx.rng.sample(allidx, 3)):
+                try:
+                    bv = d.blocks[bidx].compute(scheduler="sync")
+                except Exception as e:
+                    ctx.fail(".blocks[idx].compute() raised: " + type(e).__name__ + ": " + str(e)[:160], observed=list(bidx))
+                    break
+                sl = tuple(slice(st[i], st[i + 1]) for st, i in zip(starts, bidx))
+                if not _close(bv, x[sl]):
+                    ctx.fail(".blocks[idx].compute() (public optimisation pipeline) returns a wrong block", observed=list(bidx))
+                    break
         if not _close(r, x):
             ctx.fail("dask result differs from NumPy", observed=np.asarray(r).tolist(), expected=np.asarray(x).tolist())
     for o in set(U.prog_ops(prog)):
